@@ -197,6 +197,16 @@ func (g *c1gen) assignStmt() []string {
 	if strings.ContainsAny(lv, ".[*") {
 		g.f("assign-path")
 	}
+	isGlobalLv := false
+	for _, gv := range g.globals {
+		isGlobalLv = isGlobalLv || gv.name == lv
+	}
+	if isGlobalLv && strings.Contains(e, "(") {
+		// `g = f(...)`: the named result of f would alias the global g during the call (region named-result-alias)
+		tmp := g.newName("v")
+		g.declare(&c1var{name: tmp, t: t})
+		return []string{tmp + " := " + e, lv + " = " + tmp}
+	}
 	if t.k == c1Struct && strings.HasPrefix(e, t.name+"{") && !strings.ContainsAny(lv, ".[*") {
 		// a struct literal assigned to a variable inside a function literal is lost when the variable is captured
 		// (region closure-struct-lit): go through a temporary
